@@ -15,7 +15,7 @@ package modeling
 //@ pred c06SameSl(a, b) = ref(a) == ref(b) && off(a) == off(b) && len(a) == len(b)
 
 //@ fn (*Component[S, T, R]).SaveCheckpoint
-//@   property C06
+//@   property C06 C08
 //@   requires c != nil
 //@   witness wrote int = hash     // the value returned by c.specHash() (local `hash`, unbound on the early error returns)
 //@   label C06.comp.save.spechash
@@ -35,7 +35,7 @@ package modeling
 //@   assigns jsonEncTyp, jsonEncVal, jsonEncCount
 
 //@ fn (*EventDrivenComponent[S, T, R]).SaveCheckpoint
-//@   property C06
+//@   property C06 C08
 //@   requires c != nil
 //@   witness wrote int = hash
 //@   label C06.ed.save.spechash
